@@ -43,4 +43,913 @@ theorem single_block (p : StorageP) (g : Grid) (T : Nat) (prices : Prices) (h : 
     simp only [h0, if_false]
     rw [hb]
     rfl
+
+/-! ## the storage with time blocks, explicitly; its restriction to an interval -/
+open EAO.SplitStorage EAO.SplitBuild
+
+/-- explicit form of an LP storage optimised in the time blocks `bl` -/
+def blkForm (p : StorageP) (g : Grid) (pr : Nat → Rat) (bl : List (Nat × Nat)) : AssetProblem :=
+  { storForm p g pr with rows := upperRows p g g.T bl ++ lowerRows p g g.T bl }
+
+theorem blkForm_keep (p : StorageP) (g : Grid) (pr : Nat → Rat) (bl : List (Nat × Nat)) (I : List Nat) :
+    (blkForm p g pr bl).keep I = (storForm p g pr).keep I := rfl
+
+theorem blk_ns (p : StorageP) (aa : Option (List Nat)) (g : Grid) (h1 : hasNS p = false) :
+    nsRows { p with blocks := aa } g g.T = [] := by
+  have h1' : hasNS { p with blocks := aa } = false := h1
+  simp [nsRows, h1']
+
+theorem blk_hold (p : StorageP) (aa : Option (List Nat)) (g : Grid) (h2 : p.maxStoreDuration = none) :
+    holdRows { p with blocks := aa } g g.T = [] := by
+  unfold holdRows
+  show (match p.maxStoreDuration with | none => [] | some d => _) = _
+  rw [h2]
+
+theorem blk_map (p : StorageP) (aa : Option (List Nat)) (g : Grid) (h1 : hasNS p = false)
+    (h2 : p.maxStoreDuration = none) :
+    Storage.mapping { p with blocks := aa } g g.T = dispMap p g g.T := by
+  have h1' : hasNS { p with blocks := aa } = false := h1
+  have h2' : ({ p with blocks := aa } : StorageP).maxStoreDuration = none := h2
+  unfold Storage.mapping
+  rw [h1', h2']
+  simp
+  rfl
+
+theorem buildStorage_blkForm (p : StorageP) (aa : Option (List Nat)) (g : Grid) (T : Nat) (prices : Prices)
+    (A : AssetProblem) (hg : g.Ok) (hlp : p.lp = true)
+    (hA : buildStorage { p with blocks := aa } g T prices = .ok A) :
+    ∃ pr bl, A = blkForm p g pr bl ∧ (g.T = 0 → bl = []) ∧
+      (g.T ≠ 0 → blocksOf { p with blocks := aa } g.T = .ok bl ∧ priceVec p g T prices = .ok pr ∧
+        p.nodes.isEmpty = false) := by
+  obtain ⟨h1, h2, h3⟩ := lp_spec p hlp
+  have h1' : hasNS { p with blocks := aa } = false := h1
+  have h2' : ({ p with blocks := aa } : StorageP).maxStoreDuration = none := h2
+  unfold buildStorage at hA
+  by_cases hne : g.dt.length = 0
+  · have hT : g.T = 0 := by rw [← hg.2.1]; exact hne
+    simp only [hne, if_true] at hA
+    injection hA with hA
+    refine ⟨fun _ => 0, [], ?_, fun _ => rfl, fun h => absurd hT h⟩
+    subst hA
+    simp [blkForm, storForm, hT, costVec, lowerVec, upperVec, dispMap, nVars_lp p hlp, nd, upperRows, lowerRows]
+  · have hT : g.T ≠ 0 := by rw [← hg.2.1]; exact hne
+    simp only [hne, if_false] at hA
+    have hpv : priceVec { p with blocks := aa } g T prices = priceVec p g T prices := rfl
+    rw [hpv] at hA
+    cases hpr : priceVec p g T prices with
+    | error e => simp [hpr] at hA
+    | ok pr =>
+      simp only [hpr] at hA
+      cases hn : p.nodes.isEmpty with
+      | true => simp [hn] at hA
+      | false =>
+        simp only [hn, Bool.false_eq_true, if_false] at hA
+        cases hb : blocksOf { p with blocks := aa } g.T with
+        | error e => simp [hb] at hA
+        | ok bl =>
+          simp only [hb] at hA
+          injection hA with hA
+          refine ⟨pr, bl, ?_, fun h => absurd h hT, fun _ => ⟨rfl, rfl, rfl⟩⟩
+          subst hA
+          rw [blk_ns p aa g h1, blk_hold p aa g h2, blk_map p aa g h1 h2, List.append_nil, List.append_nil]
+          rfl
+
+theorem buildStorage_of_blkForm (p : StorageP) (aa : Option (List Nat)) (g : Grid) (T : Nat) (prices : Prices)
+    (pr : Nat → Rat) (bl : List (Nat × Nat)) (hg : g.Ok) (hlp : p.lp = true) (h0 : g.T = 0 → bl = [])
+    (hpr : g.T ≠ 0 → blocksOf { p with blocks := aa } g.T = .ok bl ∧ priceVec p g T prices = .ok pr ∧
+        p.nodes.isEmpty = false) :
+    buildStorage { p with blocks := aa } g T prices = .ok (blkForm p g pr bl) := by
+  obtain ⟨h1, h2, h3⟩ := lp_spec p hlp
+  have h1' : hasNS { p with blocks := aa } = false := h1
+  have h2' : ({ p with blocks := aa } : StorageP).maxStoreDuration = none := h2
+  unfold buildStorage
+  by_cases hne : g.dt.length = 0
+  · have hT : g.T = 0 := by rw [← hg.2.1]; exact hne
+    simp only [hne, if_true]
+    congr 1
+    simp [blkForm, h0 hT, storForm, hT, costVec, lowerVec, upperVec, dispMap, nVars_lp p hlp, nd, upperRows, lowerRows]
+  · have hT : g.T ≠ 0 := by rw [← hg.2.1]; exact hne
+    obtain ⟨e0, e1, e2⟩ := hpr hT
+    have hpv : priceVec { p with blocks := aa } g T prices = priceVec p g T prices := rfl
+    simp only [hne, if_false, hpv, e1, e0]
+    have : ({ p with blocks := aa } : StorageP).nodes.isEmpty = false := e2
+    simp only [this, Bool.false_eq_true, if_false]
+    rw [blk_ns p aa g h1, blk_hold p aa g h2, blk_map p aa g h1 h2, List.append_nil, List.append_nil]
+    rfl
+
+/-- the block `[a, e)` lies inside the piece `[sa, sa + m)` -/
+def inside (sa m : Nat) (ae : Nat × Nat) : Bool := decide (sa ≤ ae.1) && decide (ae.2 ≤ sa + m)
+/-- the block written with the positions of the piece that starts at `sa` -/
+def unshift (sa : Nat) (ae : Nat × Nat) : Nat × Nat := (ae.1 - sa, ae.2 - sa)
+
+theorem range'_shift (sa a k : Nat) (h : sa ≤ a) : List.range' a k = (List.range' (a - sa) k).map (sa + ·) := by
+  rw [List.map_add_range']
+  congr 1; omega
+
+theorem restrict_blocks (X : AssetProblem) (I : List Nat) (F F' : Nat → Nat → Nat → Row) (sa m : Nat) :
+    ∀ (bl : List (Nat × Nat)),
+    (∀ ae ∈ bl, inside sa m ae = true → ∀ i, ae.1 ≤ i → i < ae.2 →
+      (F ae.1 ae.2 i).coeffs.all (fun q => (X.keep I).contains q.1) = true ∧
+      (F ae.1 ae.2 i).rename (fun v => (X.keep I).idxOf v) = F' (ae.1 - sa) (ae.2 - sa) (i - sa)) →
+    (∀ ae ∈ bl, inside sa m ae = false → ∀ i, ae.1 ≤ i → i < ae.2 →
+      (F ae.1 ae.2 i).coeffs.all (fun q => (X.keep I).contains q.1) = false) →
+    restrictRows X I (bl.flatMap fun ae => (List.range' ae.1 (ae.2 - ae.1)).map fun i => F ae.1 ae.2 i) =
+      ((bl.filter (inside sa m)).map (unshift sa)).flatMap fun ae =>
+        (List.range' ae.1 (ae.2 - ae.1)).map fun i => F' ae.1 ae.2 i
+  | [], _, _ => rfl
+  | ae :: bl, hin, hout => by
+    have ih := restrict_blocks X I F F' sa m bl (fun x hx => hin x (List.mem_cons_of_mem _ hx))
+      (fun x hx => hout x (List.mem_cons_of_mem _ hx))
+    rw [List.flatMap_cons, restrictRows_append, ih]
+    cases hio : inside sa m ae with
+    | true =>
+      have hsa : sa ≤ ae.1 := by
+        unfold inside at hio; simp only [Bool.and_eq_true, decide_eq_true_eq] at hio; exact hio.1
+      rw [List.filter_cons_of_pos hio, List.map_cons, List.flatMap_cons]
+      congr 1
+      unfold restrictRows
+      have hfil : ((List.range' ae.1 (ae.2 - ae.1)).map fun i => F ae.1 ae.2 i).filter
+          (fun r => r.coeffs.all fun q => (X.keep I).contains q.1) =
+          (List.range' ae.1 (ae.2 - ae.1)).map fun i => F ae.1 ae.2 i := by
+        rw [List.filter_eq_self]
+        intro r hr
+        obtain ⟨i, hi, rfl⟩ := List.mem_map.mp hr
+        rw [List.mem_range'_1] at hi
+        exact (hin ae (by simp) hio i hi.1 (by omega)).1
+      rw [hfil, List.map_map]
+      show _ = (List.range' (ae.1 - sa) (ae.2 - sa - (ae.1 - sa))).map fun i => F' (ae.1 - sa) (ae.2 - sa) i
+      have hk : ae.2 - sa - (ae.1 - sa) = ae.2 - ae.1 := by omega
+      rw [hk, range'_shift sa ae.1 (ae.2 - ae.1) hsa, List.map_map]
+      apply List.map_congr_left
+      intro j hj
+      rw [List.mem_range'_1] at hj
+      simp only [Function.comp]
+      rw [(hin ae (by simp) hio (sa + j) (by omega) (by omega)).2]
+      congr 1; omega
+    | false =>
+      rw [List.filter_cons_of_neg (by simp [hio])]
+      have : restrictRows X I ((List.range' ae.1 (ae.2 - ae.1)).map fun i => F ae.1 ae.2 i) = [] := by
+        unfold restrictRows
+        rw [List.map_eq_nil_iff, List.filter_eq_nil_iff]
+        intro r hr
+        obtain ⟨i, hi, rfl⟩ := List.mem_map.mp hr
+        rw [List.mem_range'_1] at hi
+        rw [hout ae (by simp) hio i hi.1 (by omega)]
+        simp
+      rw [this, List.nil_append]
+
+theorem keep_seg (p : StorageP) (g : Grid) (pr : Nat → Rat) (I : List Nat) (hg : g.Ok) (hlp : p.lp = true)
+    (sa m : Nat) (hP : pos g.idx I = List.range' sa m) :
+    (storForm p g pr).keep I =
+      if sep p then List.range' sa m ++ (List.range' sa m).map (g.T + ·) else List.range' sa m := by
+  rw [storForm_keep p g pr I hg hlp, hP, hg.1]
+
+theorem seg_le (g : Grid) (I : List Nat) (hg : g.Ok) (sa m : Nat) (hP : pos g.idx I = List.range' sa m)
+    (hm : 0 < m) : sa + m ≤ g.T := by
+  have : sa + m - 1 ∈ pos g.idx I := by rw [hP, List.mem_range'_1]; omega
+  have := ((mem_pos g.idx I _).mp this).1
+  rw [hg.1] at this
+  omega
+
+theorem idxOf_range' (sa m j : Nat) (h1 : sa ≤ j) (h2 : j < sa + m) : (List.range' sa m).idxOf j = j - sa := by
+  have := idxOf_getD (List.range' sa m) (List.nodup_range' (step := 1) (by omega)) (j - sa) (by simp; omega)
+  rw [range'_getD sa m (j - sa) (by omega)] at this
+  have e : sa + (j - sa) = j := by omega
+  rw [e] at this
+  exact this
+
+theorem keep_idx1 (p : StorageP) (g : Grid) (pr : Nat → Rat) (I : List Nat) (hg : g.Ok) (hlp : p.lp = true)
+    (sa m : Nat) (hP : pos g.idx I = List.range' sa m) (j : Nat) (h1 : sa ≤ j) (h2 : j < sa + m) :
+    j ∈ (storForm p g pr).keep I ∧ ((storForm p g pr).keep I).idxOf j = j - sa := by
+  rw [keep_seg p g pr I hg hlp sa m hP]
+  have hmem : j ∈ List.range' sa m := by rw [List.mem_range'_1]; omega
+  by_cases hs : sep p = true
+  · simp only [hs, if_true]
+    exact ⟨List.mem_append_left _ hmem, by rw [idxOf_append_left _ _ _ hmem]; exact idxOf_range' sa m j h1 h2⟩
+  · simp only [hs, Bool.false_eq_true, if_false]
+    exact ⟨hmem, idxOf_range' sa m j h1 h2⟩
+
+theorem keep_idx2 (p : StorageP) (g : Grid) (pr : Nat → Rat) (I : List Nat) (hg : g.Ok) (hlp : p.lp = true)
+    (sa m : Nat) (hP : pos g.idx I = List.range' sa m) (hs : sep p = true) (j : Nat) (h1 : sa ≤ j) (h2 : j < sa + m) :
+    g.T + j ∈ (storForm p g pr).keep I ∧ ((storForm p g pr).keep I).idxOf (g.T + j) = m + (j - sa) := by
+  rw [keep_seg p g pr I hg hlp sa m hP]
+  have hmem : j ∈ List.range' sa m := by rw [List.mem_range'_1]; omega
+  have hle := seg_le g I hg sa m hP (by omega)
+  simp only [hs, if_true]
+  refine ⟨List.mem_append_right _ (List.mem_map_of_mem hmem), ?_⟩
+  rw [idxOf_append_right _ _ _ (by rw [List.mem_range'_1]; omega),
+    idxOf_map_inj (g.T + ·) (fun a b h => by omega), idxOf_range' sa m j h1 h2]
+  simp
+
+theorem keep_not_mem (p : StorageP) (g : Grid) (pr : Nat → Rat) (I : List Nat) (hg : g.Ok) (hlp : p.lp = true)
+    (sa m : Nat) (hP : pos g.idx I = List.range' sa m) (j : Nat) (hj : j < g.T) (h : ¬ (sa ≤ j ∧ j < sa + m)) :
+    j ∉ (storForm p g pr).keep I := by
+  rw [keep_seg p g pr I hg hlp sa m hP]
+  have hmem : j ∉ List.range' sa m := by rw [List.mem_range'_1]; omega
+  by_cases hs : sep p = true
+  · simp only [hs, if_true]
+    intro hh
+    rcases List.mem_append.mp hh with hh | hh
+    · exact hmem hh
+    · obtain ⟨k, _, hk⟩ := List.mem_map.mp hh
+      have hk' : g.T + k = j := hk
+      omega
+  · simp only [hs, Bool.false_eq_true, if_false]
+    exact hmem
+
+/-- renaming the coefficients of a level row of the block `[a, ..)` inside the piece `[sa, sa+m)` -/
+theorem levelCoeffs_rename (p : StorageP) (g : Grid) (pr : Nat → Rat) (I : List Nat) (hg : g.Ok) (hlp : p.lp = true)
+    (sa m : Nat) (hP : pos g.idx I = List.range' sa m) (a i : Nat) (h1 : sa ≤ a) (h2 : a ≤ i) (h3 : i < sa + m) :
+    (levelCoeffs p g.T a i).all (fun q => ((storForm p g pr).keep I).contains q.1) = true ∧
+    (levelCoeffs p g.T a i).map (fun q => (((storForm p g pr).keep I).idxOf q.1, q.2)) =
+      levelCoeffs p m (a - sa) (i - sa) := by
+  have hk : i - sa + 1 - (a - sa) = i + 1 - a := by omega
+  have hA : ∀ c : Rat, ((List.range' a (i + 1 - a)).map fun j => (j, c)).map
+      (fun q => (((storForm p g pr).keep I).idxOf q.1, q.2)) =
+      (List.range' (a - sa) (i + 1 - a)).map fun j => (j, c) := by
+    intro c
+    rw [range'_shift sa a _ h1, List.map_map, List.map_map]
+    apply List.map_congr_left
+    intro j hj
+    rw [List.mem_range'_1] at hj
+    simp only [Function.comp]
+    rw [(keep_idx1 p g pr I hg hlp sa m hP (sa + j) (by omega) (by omega)).2]
+    congr 1; omega
+  have hB : sep p = true → ∀ c : Rat, ((List.range' a (i + 1 - a)).map fun j => (g.T + j, c)).map
+      (fun q => (((storForm p g pr).keep I).idxOf q.1, q.2)) =
+      (List.range' (a - sa) (i + 1 - a)).map fun j => (m + j, c) := by
+    intro hs c
+    rw [range'_shift sa a _ h1, List.map_map, List.map_map]
+    apply List.map_congr_left
+    intro j hj
+    rw [List.mem_range'_1] at hj
+    simp only [Function.comp]
+    rw [(keep_idx2 p g pr I hg hlp sa m hP hs (sa + j) (by omega) (by omega)).2]
+    congr 2; omega
+  unfold levelCoeffs
+  rw [hk]
+  by_cases hs : sep p = true
+  · simp only [hs, if_true, List.map_append, List.all_append, Bool.and_eq_true, List.all_eq_true]
+    refine ⟨⟨?_, ?_⟩, ?_⟩
+    · intro q hq
+      obtain ⟨j, hj, rfl⟩ := List.mem_map.mp hq
+      rw [List.mem_range'_1] at hj
+      exact List.contains_iff_mem.mpr (keep_idx1 p g pr I hg hlp sa m hP j (by omega) (by omega)).1
+    · intro q hq
+      obtain ⟨j, hj, rfl⟩ := List.mem_map.mp hq
+      rw [List.mem_range'_1] at hj
+      exact List.contains_iff_mem.mpr (keep_idx2 p g pr I hg hlp sa m hP hs j (by omega) (by omega)).1
+    · rw [hA, hB hs]
+  · simp only [hs, Bool.false_eq_true, if_false, List.all_eq_true]
+    refine ⟨?_, hA _⟩
+    intro q hq
+    obtain ⟨j, hj, rfl⟩ := List.mem_map.mp hq
+    rw [List.mem_range'_1] at hj
+    exact List.contains_iff_mem.mpr (keep_idx1 p g pr I hg hlp sa m hP j (by omega) (by omega)).1
+
+/-- a level row of a block that starts outside the piece is dropped by the restriction -/
+theorem levelCoeffs_out (p : StorageP) (g : Grid) (pr : Nat → Rat) (I : List Nat) (hg : g.Ok) (hlp : p.lp = true)
+    (sa m : Nat) (hP : pos g.idx I = List.range' sa m) (a i : Nat) (h2 : a ≤ i) (h3 : i < g.T)
+    (h : ¬ (sa ≤ a ∧ a < sa + m)) :
+    (levelCoeffs p g.T a i).all (fun q => ((storForm p g pr).keep I).contains q.1) = false := by
+  have hnot := keep_not_mem p g pr I hg hlp sa m hP a (by omega) h
+  have hmem : a ∈ List.range' a (i + 1 - a) := by rw [List.mem_range'_1]; omega
+  rw [Bool.eq_false_iff]
+  intro hall
+  rw [List.all_eq_true] at hall
+  unfold levelCoeffs at hall
+  by_cases hs : sep p = true
+  · simp only [hs, if_true] at hall
+    have := hall (a, -1 * p.effIn) (List.mem_append_left _ (List.mem_map.mpr ⟨a, hmem, rfl⟩))
+    exact hnot (List.contains_iff_mem.mp this)
+  · simp only [hs, Bool.false_eq_true, if_false] at hall
+    have := hall (a, -1) (List.mem_map.mpr ⟨a, hmem, rfl⟩)
+    exact hnot (List.contains_iff_mem.mp this)
+
+theorem rhs_pick (p : StorageP) (g : Grid) (I : List Nat) (hg : g.Ok) (sa m : Nat)
+    (hP : pos g.idx I = List.range' sa m) (hse : p.startLevel = p.endLevel) (a e i : Nat)
+    (h1 : sa ≤ a) (h2 : a ≤ i) (h3 : i < sa + m) :
+    upRhs p (g.pick I) (a - sa) (e - sa) (i - sa) = upRhs p g a e i ∧
+    loRhs p (g.pick I) (a - sa) (e - sa) (i - sa) = loRhs p g a e i := by
+  have hiff : (i - sa + 1 = e - sa) ↔ (i + 1 = e) := by omega
+  have hbs : ∀ k, blockStart p k = p.startLevel := by intro k; unfold blockStart; split <;> simp [hse]
+  have hinf : blockInfl p (g.pick I) (a - sa) (i - sa) = blockInfl p g a i := by
+    unfold blockInfl
+    rw [cumInfl_pick p g I hg sa m hP (i - sa + 1) (by omega), cumInfl_pick p g I hg sa m hP (a - sa) (by omega)]
+    have e1 : sa + (i - sa + 1) = i + 1 := by omega
+    have e2 : sa + (a - sa) = a := by omega
+    rw [e1, e2]
+    grind
+  unfold upRhs loRhs
+  rw [hinf, hbs, hbs]
+  by_cases h : i + 1 = e
+  · simp [h, hiff.mpr h]
+  · have h' : ¬ (i - sa + 1 = e - sa) := fun hh => h (hiff.mp hh)
+    simp [h, h']
+
+theorem upperRow_none (p : StorageP) (g : Grid) (n a e i : Nat) (hd : p.maxStoreDuration = none) :
+    upperRow p g n a e i = { coeffs := levelCoeffs p n a i, rhs := upRhs p g a e i, kind := .U } := by
+  unfold upperRow; rw [hd]
+
+/-- **The storage with time blocks, restricted to an interval.**  `bl` the blocks of the unsplit storage (each inside
+    the interval's piece `[sa, sa+m)` of the storage's grid or disjoint from it), start level = end level, no storage
+    costs: the restriction to the interval's steps is the storage with the blocks of that piece, written with the
+    positions of the picked grid. -/
+theorem blk_restrict (p : StorageP) (g : Grid) (pr prI : Nat → Rat) (I : List Nat) (hg : g.Ok) (hlp : p.lp = true)
+    (hcs : p.costStore = 0) (hse : p.startLevel = p.endLevel) (sa m : Nat) (hP : pos g.idx I = List.range' sa m)
+    (bl : List (Nat × Nat))
+    (hbl : ∀ ae ∈ bl, ae.1 < ae.2 ∧ ae.2 ≤ g.T ∧ (inside sa m ae = true ∨ ae.2 ≤ sa ∨ sa + m ≤ ae.1))
+    (hprI : ∀ j, j < (pos g.idx I).length → prI j = pr ((pos g.idx I).getD j 0)) :
+    (blkForm p g pr bl).restrictTo I =
+      blkForm p (g.pick I) prI ((bl.filter (inside sa m)).map (unshift sa)) := by
+  obtain ⟨_, hd, _⟩ := lp_spec p hlp
+  have hR := restart_restrict p g pr (fun _ => prI) [I] I hg hlp hcs (by simp) (List.pairwise_singleton _ _) hprI
+  have hm : (g.pick I).T = m := by rw [pick_T g I hg, hP]; simp
+  have hsplit : (blkForm p g pr bl).restrictTo I =
+      { ((storForm p g pr).withIntervalRows [I] (fun I' => storForm p (g.pick I') prI)).restrictTo I with
+        rows := restrictRows (blkForm p g pr bl) I (upperRows p g g.T bl ++ lowerRows p g g.T bl) } := rfl
+  have hout : ∀ ae ∈ bl, inside sa m ae = false → ¬ (sa ≤ ae.1 ∧ ae.1 < sa + m) := by
+    intro ae hae hio
+    obtain ⟨h1, _, h3⟩ := hbl ae hae
+    rcases h3 with h3 | h3 | h3
+    · rw [hio] at h3; cases h3
+    · omega
+    · omega
+  have hins : ∀ ae, inside sa m ae = true → sa ≤ ae.1 ∧ ae.2 ≤ sa + m := by
+    intro ae h; unfold inside at h; simpa using h
+  have hup : restrictRows (blkForm p g pr bl) I (upperRows p g g.T bl) =
+      upperRows p (g.pick I) m ((bl.filter (inside sa m)).map (unshift sa)) := by
+    unfold upperRows
+    refine restrict_blocks _ I (fun a e i => upperRow p g g.T a e i) (fun a e i => upperRow p (g.pick I) m a e i) sa m bl
+      (fun ae hae hio i hi1 hi2 => ?_) (fun ae hae hio i hi1 hi2 => ?_)
+    · obtain ⟨k1, k2⟩ := hins ae hio
+      obtain ⟨c1, c2⟩ := levelCoeffs_rename p g pr I hg hlp sa m hP ae.1 i k1 hi1 (by omega)
+      simp only [upperRow_none _ _ _ _ _ _ hd]
+      refine ⟨c1, ?_⟩
+      rw [(rhs_pick p g I hg sa m hP hse ae.1 ae.2 i k1 hi1 (by omega)).1]
+      exact congrArg (fun c => ({ coeffs := c, rhs := upRhs p g ae.1 ae.2 i, kind := .U } : Row)) c2
+    · simp only [upperRow_none _ _ _ _ _ _ hd]
+      exact levelCoeffs_out p g pr I hg hlp sa m hP ae.1 i hi1 (by have := (hbl ae hae).2.1; omega) (hout ae hae hio)
+  have hlo : restrictRows (blkForm p g pr bl) I (lowerRows p g g.T bl) =
+      lowerRows p (g.pick I) m ((bl.filter (inside sa m)).map (unshift sa)) := by
+    unfold lowerRows
+    refine restrict_blocks _ I (fun a e i => lowerRow p g g.T a e i) (fun a e i => lowerRow p (g.pick I) m a e i) sa m bl
+      (fun ae hae hio i hi1 hi2 => ?_) (fun ae hae hio i hi1 hi2 => ?_)
+    · obtain ⟨k1, k2⟩ := hins ae hio
+      obtain ⟨c1, c2⟩ := levelCoeffs_rename p g pr I hg hlp sa m hP ae.1 i k1 hi1 (by omega)
+      refine ⟨c1, ?_⟩
+      unfold lowerRow
+      rw [(rhs_pick p g I hg sa m hP hse ae.1 ae.2 i k1 hi1 (by omega)).2]
+      exact congrArg (fun c => ({ coeffs := c, rhs := loRhs p g ae.1 ae.2 i, kind := .L } : Row)) c2
+    · exact levelCoeffs_out p g pr I hg hlp sa m hP ae.1 i hi1 (by have := (hbl ae hae).2.1; omega) (hout ae hae hio)
+  have hrows : restrictRows (blkForm p g pr bl) I (upperRows p g g.T bl ++ lowerRows p g g.T bl) =
+      upperRows p (g.pick I) (g.pick I).T ((bl.filter (inside sa m)).map (unshift sa)) ++
+      lowerRows p (g.pick I) (g.pick I).T ((bl.filter (inside sa m)).map (unshift sa)) := by
+    rw [restrictRows_append, hm, hup, hlo]
+  rw [hsplit, hR, hrows]
+  rfl
+
+/-! ## the blocked storage is banded; its rows stay inside the intervals -/
+
+theorem mem_blkRows (p : StorageP) (g : Grid) (bl : List (Nat × Nat)) (hd : p.maxStoreDuration = none) (r : Row)
+    (hr : r ∈ upperRows p g g.T bl ++ lowerRows p g g.T bl) :
+    ∃ ae ∈ bl, ∃ i, ae.1 ≤ i ∧ i < ae.2 ∧ r.coeffs = levelCoeffs p g.T ae.1 i := by
+  rcases List.mem_append.mp hr with hr | hr
+  · obtain ⟨ae, hae, hr⟩ := List.mem_flatMap.mp hr
+    obtain ⟨i, hi, rfl⟩ := List.mem_map.mp hr
+    rw [List.mem_range'_1] at hi
+    exact ⟨ae, hae, i, hi.1, by omega, by rw [upperRow_none _ _ _ _ _ _ hd]⟩
+  · obtain ⟨ae, hae, hr⟩ := List.mem_flatMap.mp hr
+    obtain ⟨i, hi, rfl⟩ := List.mem_map.mp hr
+    rw [List.mem_range'_1] at hi
+    exact ⟨ae, hae, i, hi.1, by omega, rfl⟩
+
+theorem levelCoeffs_ok (p : StorageP) (g : Grid) (pr : Nat → Rat) (hlp : p.lp = true) (a i : Nat) (h1 : a ≤ i)
+    (h2 : i < g.T) :
+    levelCoeffs p g.T a i ≠ [] ∧ ∀ q ∈ levelCoeffs p g.T a i, q.1 < (storForm p g pr).n := by
+  have hn := storForm_n p g pr hlp
+  have hk : i + 1 - a = (i - a) + 1 := by omega
+  unfold levelCoeffs
+  by_cases hs : sep p = true
+  · simp only [hs, if_true] at hn ⊢
+    refine ⟨by rw [hk, List.range'_succ]; simp, ?_⟩
+    intro q hq
+    rcases List.mem_append.mp hq with hq | hq
+    · obtain ⟨j, hj, rfl⟩ := List.mem_map.mp hq
+      rw [List.mem_range'_1] at hj
+      show j < _
+      omega
+    · obtain ⟨j, hj, rfl⟩ := List.mem_map.mp hq
+      rw [List.mem_range'_1] at hj
+      show g.T + j < _
+      omega
+  · simp only [hs, Bool.false_eq_true, if_false] at hn ⊢
+    refine ⟨by rw [hk, List.range'_succ]; simp, ?_⟩
+    intro q hq
+    obtain ⟨j, hj, rfl⟩ := List.mem_map.mp hq
+    rw [List.mem_range'_1] at hj
+    show j < _
+    omega
+
+theorem blkForm_banded (p : StorageP) (g : Grid) (pr : Nat → Rat) (Tref : Nat) (bl : List (Nat × Nat)) (hg : g.Ok)
+    (hlp : p.lp = true) (hidx : ∀ t ∈ g.idx, t < Tref) (hbl : ∀ ae ∈ bl, ae.2 ≤ g.T) :
+    Banded (blkForm p g pr bl) Tref := by
+  obtain ⟨_, hd, _⟩ := lp_spec p hlp
+  refine storForm_banded p g pr Tref hg hlp hidx _ (fun r hr => ?_)
+  obtain ⟨ae, hae, i, h1, h2, hc⟩ := mem_blkRows p g bl hd r hr
+  rw [hc]
+  exact levelCoeffs_ok p g pr hlp ae.1 i h1 (by have := hbl ae hae; omega)
+
+theorem blkForm_rowsInside (p : StorageP) (g : Grid) (pr : Nat → Rat) (Is : List (List Nat)) (bl : List (Nat × Nat))
+    (hg : g.Ok) (hlp : p.lp = true)
+    (hbl : ∀ ae ∈ bl, ae.1 < ae.2 → ∃ I ∈ Is, ∃ sa m, pos g.idx I = List.range' sa m ∧ inside sa m ae = true) :
+    RowsInside (blkForm p g pr bl) Is := by
+  obtain ⟨_, hd, _⟩ := lp_spec p hlp
+  intro r hr
+  obtain ⟨ae, hae, i, h1, h2, hc⟩ := mem_blkRows p g bl hd r hr
+  obtain ⟨I, hI, sa, m, hP, hin⟩ := hbl ae hae (by omega)
+  have hins : sa ≤ ae.1 ∧ ae.2 ≤ sa + m := by unfold inside at hin; simpa using hin
+  refine ⟨I, hI, fun q hq => ?_⟩
+  rw [hc] at hq
+  have hall := (levelCoeffs_rename p g pr I hg hlp sa m hP ae.1 i hins.1 h1 (by omega)).1
+  rw [List.all_eq_true] at hall
+  exact List.contains_iff_mem.mp (hall q hq)
+
+/-! ## the blocks the code finds -/
+
+theorem blockPairs_append_ok : ∀ (L : List Nat) (n : Nat), strictInc L = true → (∀ v ∈ L, v < n) →
+    ∀ ae ∈ blockPairs (L ++ [n]), ae.1 < ae.2 ∧ ae.2 ≤ n
+  | [], n, _, _ => by intro ae h; simp [blockPairs] at h
+  | [a], n, _, h => by
+    intro ae hae
+    simp [blockPairs] at hae
+    subst hae
+    exact ⟨h a (by simp), Nat.le_refl _⟩
+  | a :: b :: rest, n, hs, h => by
+    intro ae hae
+    have hs' : a < b ∧ strictInc (b :: rest) = true := by simpa [strictInc] using hs
+    have hcons : blockPairs (a :: b :: rest ++ [n]) = (a, b) :: blockPairs (b :: rest ++ [n]) := by
+      simp [blockPairs]
+    rw [hcons] at hae
+    rcases List.mem_cons.mp hae with rfl | hae
+    · exact ⟨hs'.1, Nat.le_of_lt (h b (by simp))⟩
+    · exact blockPairs_append_ok (b :: rest) n hs'.2 (fun v hv => h v (List.mem_cons_of_mem _ hv)) ae hae
+
+/-- the blocks the code finds are non-empty and end inside the grid -/
+theorem blocksOf_ok (p : StorageP) (n : Nat) (bl : List (Nat × Nat)) (h : blocksOf p n = .ok bl) (hn : 0 < n) :
+    ∀ ae ∈ bl, ae.1 < ae.2 ∧ ae.2 ≤ n := by
+  unfold blocksOf at h
+  cases hb : p.blocks with
+  | none =>
+    simp only [hb] at h
+    injection h with h
+    subst h
+    intro ae hae
+    simp at hae
+    subst hae
+    exact ⟨hn, Nat.le_refl _⟩
+  | some aa =>
+    simp only [hb] at h
+    by_cases hc : (strictInc aa && aa.all (fun v => decide (v < n))) = true
+    · simp only [hc, if_true] at h
+      simp only [Bool.and_eq_true, List.all_eq_true, decide_eq_true_eq] at hc
+      cases aa with
+      | nil => simp at h
+      | cons a0 tl =>
+        simp only at h
+        by_cases h0 : a0 = 0
+        · simp only [h0, if_true] at h
+          injection h with h
+          subst h
+          have hwe : withEnd (0 :: tl) n = (0 :: tl) ++ [n] := by
+            unfold withEnd
+            rw [if_neg]
+            intro hl
+            have : n ∈ (0 :: tl) := List.mem_of_getLast? hl
+            have := hc.2 n (h0 ▸ this)
+            omega
+          rw [hwe]
+          exact blockPairs_append_ok (0 :: tl) n (h0 ▸ hc.1) (fun v hv => hc.2 v (h0 ▸ hv))
+        · simp [h0] at h
+    · simp [hc] at h
+
+/-! ## one storage with time blocks in the split set-up -/
+
+theorem restrict_window_eq (J : Grid) (s1 e1 s2 e2 : Int)
+    (h : ∀ t ∈ J.pts, (decide (s1 ≤ t) && decide (t < e1)) = (decide (s2 ≤ t) && decide (t < e2))) :
+    J.restrict s1 e1 = J.restrict s2 e2 := by
+  have : J.mask s1 e1 = J.mask s2 e2 := List.map_congr_left h
+  unfold Grid.restrict
+  rw [this]
+
+/-- in an interval the window `start or interval start .. stop or interval end` selects the same steps as the unsplit
+    window, when the reference grid lies inside `[gs, ge)` -/
+theorem interval_window_eq (ref : Grid) (dfJ : List Rat) (ab : Int × Int) (gs ge : Int) (start stop : Option Int)
+    (hpts : ∀ t ∈ ref.pts, gs ≤ t ∧ t < ge) :
+    ({ (ref.interval ab.1 ab.2) with df := dfJ } : Grid).restrict (start.getD ab.1) (stop.getD ab.2) =
+    ({ (ref.interval ab.1 ab.2) with df := dfJ } : Grid).restrict (start.getD gs) (stop.getD ge) := by
+  apply restrict_window_eq
+  intro t ht
+  have ht' : t ∈ sel (ref.pts.map fun p => decide (ab.1 ≤ p) && decide (p < ab.2)) ref.pts := ht
+  rw [sel_map_self'] at ht'
+  obtain ⟨h1, h2⟩ := List.mem_filter.mp ht'
+  simp only [Bool.and_eq_true, decide_eq_true_eq] at h2
+  obtain ⟨k1, k2⟩ := hpts t h1
+  cases start <;> cases stop <;> simp [h2.1, h2.2, k1, k2]
+
+/-- pair-level alignment of ONE storage: every block of the unsplit storage lies inside one interval's piece of the
+    storage's grid or is disjoint from it, and the blocks the code computes in an interval are the unsplit blocks of
+    that piece -/
+def pairsAlignedAt (p : StorageP) (bs : Option Nat) (start stop : Option Int) (df : List Rat) (ref : Grid)
+    (gs ge : Int) (cuts : List Int) : Bool :=
+  let g := restrictedK ref gs ge start stop df
+  match blocksOf { p with blocks := blocksOn ref gs ge bs start stop df } g.T with
+  | .error _ => true
+  | .ok bl =>
+    (splitPairs cuts).all fun ab =>
+      let I := intervalSteps ref ab
+      let sa := g.segStart I
+      let m := (g.posIn I).length
+      bl.all (fun ae => inside sa m ae || decide (ae.2 ≤ sa) || decide (sa + m ≤ ae.1)) &&
+      (m == 0 ||
+        match blocksOf { p with blocks := (blocksOn (ref.interval ab.1 ab.2) ab.1 ab.2 bs start stop
+            (sel (ref.mask ab.1 ab.2) df)) } m with
+        | .ok blJ => blJ == (bl.filter (inside sa m)).map (unshift sa)
+        | .error _ => false)
+
+theorem storageK_facts (p : StorageP) (bs : Option Nat) (start stop : Option Int) (df : List Rat) (ref : Grid)
+    (gs ge : Int) (cuts : List Int) (prices : Prices) (u : Nat) (A : AssetProblem)
+    (hidx : ref.idx = List.range ref.T) (hdt : ref.dt.length = ref.T) (hdf : df.length = ref.T)
+    (hprices : ∀ kv ∈ prices, kv.2.length = ref.T)
+    (hpts : ∀ t ∈ ref.pts, gs ≤ t ∧ t < ge)
+    (hst : storageStable { p with blocks := none } (restrictedK ref gs ge start stop df)
+      ((splitPairs cuts).map (intervalSteps ref)) = true)
+    (hse : p.startLevel = p.endLevel)
+    (hal : pairsAlignedAt p bs start stop df ref gs ge cuts = true)
+    (hA : buildSpecS ((SpecK.storage p bs start stop df).toS ref gs ge) ref prices u = .ok A) :
+    Banded A ref.T ∧ RowsInside A ((splitPairs cuts).map (intervalSteps ref)) ∧
+    ∀ ab ∈ splitPairs cuts,
+      buildSpecS (((SpecK.storage p bs start stop df).onInterval ref ab).toS (ref.interval ab.1 ab.2) ab.1 ab.2)
+        (ref.interval ab.1 ab.2) (intervalPrices ref ab prices) u = .ok (A.restrictTo (intervalSteps ref ab)) := by
+  have hgdef : restrictedK ref gs ge start stop df =
+      ({ ref with df := df } : Grid).restrict (start.getD gs) (stop.getD ge) := rfl
+  have hg : (restrictedK ref gs ge start stop df).Ok := restrict_ok ref df (start.getD gs) (stop.getD ge) hidx hdt hdf
+  have hlt : ∀ t ∈ (restrictedK ref gs ge start stop df).idx, t < ref.T :=
+    restrict_idx_lt ({ ref with df := df } : Grid) _ _ hidx
+  unfold storageStable at hst
+  simp only [Bool.and_eq_true, decide_eq_true_eq] at hst
+  obtain ⟨⟨hlp, hcs⟩, htl⟩ := hst
+  have hcs' : ({ p with blocks := none } : StorageP).costStore = 0 := hcs
+  have hse' : ({ p with blocks := none } : StorageP).startLevel = ({ p with blocks := none } : StorageP).endLevel := hse
+  unfold pairsAlignedAt at hal
+  simp only [] at hal
+  have hA' : buildStorage { ({ p with blocks := none } : StorageP) with blocks := blocksOn ref gs ge bs start stop df }
+      (restrictedK ref gs ge start stop df) ref.T prices = .ok A := hA
+  generalize restrictedK ref gs ge start stop df = g at hg hlt htl hal hgdef hA'
+  generalize hp0 : ({ p with blocks := none } : StorageP) = p0 at hlp hcs' hse' hA'
+  obtain ⟨pr, bl, rfl, hbl0, hpr⟩ := buildStorage_blkForm p0 _ g ref.T prices A hg hlp hA'
+  have e : ∀ X, ({ p0 with blocks := X } : StorageP) = { p with blocks := X } := fun X => by rw [← hp0]
+  have hmle : ∀ I, (g.posIn I).length ≤ g.T := by
+    intro I
+    have : (g.posIn I).length ≤ (List.range g.idx.length).length := List.length_filter_le _ _
+    rw [List.length_range, hg.1] at this
+    exact this
+  have hfacts : (∀ ae ∈ bl, ae.1 < ae.2 ∧ ae.2 ≤ g.T) ∧ ∀ ab ∈ splitPairs cuts,
+      (∀ ae ∈ bl, inside (g.segStart (intervalSteps ref ab)) (g.posIn (intervalSteps ref ab)).length ae = true ∨
+        ae.2 ≤ g.segStart (intervalSteps ref ab) ∨
+        g.segStart (intervalSteps ref ab) + (g.posIn (intervalSteps ref ab)).length ≤ ae.1) ∧
+      ((g.posIn (intervalSteps ref ab)).length ≠ 0 →
+        blocksOf { p0 with blocks := (blocksOn (ref.interval ab.1 ab.2) ab.1 ab.2 bs start stop
+            (sel (ref.mask ab.1 ab.2) df)) } (g.posIn (intervalSteps ref ab)).length =
+          .ok ((bl.filter (inside (g.segStart (intervalSteps ref ab)) (g.posIn (intervalSteps ref ab)).length)).map
+            (unshift (g.segStart (intervalSteps ref ab))))) := by
+    by_cases hT : g.T = 0
+    · rw [hbl0 hT]
+      refine ⟨fun ae h => by simp at h, fun ab _ => ⟨fun ae h => by simp at h, fun hm => ?_⟩⟩
+      have := hmle (intervalSteps ref ab)
+      omega
+    · have hb := (hpr hT).1
+      rw [e] at hb
+      rw [hb] at hal
+      simp only [Bool.and_eq_true, List.all_eq_true, decide_eq_true_eq, Bool.or_eq_true, beq_iff_eq] at hal
+      refine ⟨blocksOf_ok _ g.T bl hb (by omega), fun ab hab => ?_⟩
+      obtain ⟨k1, k2⟩ := hal ab hab
+      refine ⟨fun ae hae => ?_, fun hm => ?_⟩
+      · rcases k1 ae hae with (h | h) | h
+        · exact Or.inl h
+        · exact Or.inr (Or.inl h)
+        · exact Or.inr (Or.inr h)
+      · rcases k2 with k2 | k2
+        · exact absurd k2 hm
+        · rw [e]
+          revert k2
+          cases blocksOf { p with blocks := (blocksOn (ref.interval ab.1 ab.2) ab.1 ab.2 bs start stop
+            (sel (ref.mask ab.1 ab.2) df)) } (g.posIn (intervalSteps ref ab)).length with
+          | error err => intro k2; cases k2
+          | ok blJ => intro k2; rw [beq_iff_eq.mp k2]
+  clear hal
+  obtain ⟨hbl1, hbl2⟩ := hfacts
+  have hseg := fun I hI => seg_of_tiles g ((splitPairs cuts).map (intervalSteps ref)) htl I hI
+  refine ⟨blkForm_banded p0 g pr ref.T bl hg hlp hlt (fun ae hae => (hbl1 ae hae).2), ?_, ?_⟩
+  · apply blkForm_rowsInside p0 g pr _ bl hg hlp
+    intro ae hae _
+    obtain ⟨h1, h2⟩ := hbl1 ae hae
+    -- the piece that contains position `ae.1`
+    have ht := htl
+    unfold tiles at ht
+    simp only [decide_eq_true_eq] at ht
+    have hmem : ae.1 ∈ (((splitPairs cuts).map (intervalSteps ref)).map g.posIn).flatten := by
+      rw [ht]; exact List.mem_range.mpr (by omega)
+    obtain ⟨P, hP, haP⟩ := List.mem_flatten.mp hmem
+    obtain ⟨I, hI, rfl⟩ := List.mem_map.mp hP
+    obtain ⟨ab, hab, rfl⟩ := List.mem_map.mp hI
+    have hpos := hseg _ hI
+    refine ⟨_, hI, _, _, hpos, ?_⟩
+    have haP' : ae.1 ∈ pos g.idx (intervalSteps ref ab) := haP
+    rw [hpos, List.mem_range'_1] at haP'
+    rcases (hbl2 ab hab).1 ae hae with h | h | h
+    · exact h
+    · omega
+    · omega
+  · intro ab hab
+    have hI : intervalSteps ref ab ∈ (splitPairs cuts).map (intervalSteps ref) := List.mem_map_of_mem hab
+    have hpos := hseg _ hI
+    obtain ⟨hb1, hb2⟩ := hbl2 ab hab
+    have hTI : (g.pick (intervalSteps ref ab)).T = (g.posIn (intervalSteps ref ab)).length := pick_T g _ hg
+    have hgI := pick_ok g (intervalSteps ref ab) hg
+    show buildStorage { p with blocks := (blocksOn (ref.interval ab.1 ab.2) ab.1 ab.2 bs start stop
+        (sel (ref.mask ab.1 ab.2) df)) }
+      (({ (ref.interval ab.1 ab.2) with df := sel (ref.mask ab.1 ab.2) df } : Grid).restrict
+        (start.getD ab.1) (stop.getD ab.2)) (ref.interval ab.1 ab.2).T (intervalPrices ref ab prices) = _
+    rw [← e, interval_window_eq ref _ ab gs ge start stop hpts, interval_restrict_eq_pick ref df ab _ _ hidx, ← hgdef,
+      intervalPrices_eq_pick ref ab prices hidx hprices, interval_T ref ab hidx]
+    obtain ⟨prI, hb, _, hprI⟩ := storageOn_form p0 g ref.T prices pr (intervalSteps ref ab) hg hlp
+      (fun h => (hpr h).2)
+    obtain ⟨pr', hEq, hpr'⟩ := buildStorage_form p0 (g.pick (intervalSteps ref ab)) _ _ _ hgI hlp hb
+    rw [blk_restrict p0 g pr prI (intervalSteps ref ab) hg hlp hcs' hse' _ _ hpos bl
+      (fun ae hae => ⟨(hbl1 ae hae).1, (hbl1 ae hae).2, hb1 ae hae⟩) hprI]
+    have hsw : ∀ blI, blkForm p0 (g.pick (intervalSteps ref ab)) prI blI =
+        blkForm p0 (g.pick (intervalSteps ref ab)) pr' blI := by
+      intro blI; unfold blkForm; rw [hEq]
+    rw [hsw]
+    refine buildStorage_of_blkForm p0 _ (g.pick (intervalSteps ref ab)) _ _ pr' _ hgI hlp (fun h0 => ?_)
+      (fun hne => ⟨?_, hpr' hne⟩)
+    · rw [hTI] at h0
+      rw [h0, List.map_eq_nil_iff, List.filter_eq_nil_iff]
+      intro ae hae hin
+      have := (hbl1 ae hae).1
+      unfold inside at hin
+      simp only [Bool.and_eq_true, decide_eq_true_eq] at hin
+      omega
+    · rw [hTI] at hne ⊢
+      exact hb2 hne
+
+/-! ## portfolios with storages in time blocks -/
+open EAO.Split
+
+/-- pair-level alignment of a portfolio: `pairsAlignedAt` for every storage -/
+def pairsAligned (specs : List SpecK) (ref : Grid) (gs ge : Int) (cuts : List Int) : Bool :=
+  specs.all fun a =>
+    match a with
+    | .builder _ => true
+    | .storage p bs start stop df => pairsAlignedAt p bs start stop df ref gs ge cuts
+
+/-- every storage: LP form apart from time blocks, no storage costs, start level = end level in `[0, size]` -/
+def lpKAll (specs : List SpecK) : Bool :=
+  specs.all fun a =>
+    match a with
+    | .builder _ => true
+    | .storage p _ _ _ _ => p.lpK
+
+theorem mapM_map' {ε α β γ} (f : β → Except ε γ) (k : α → β) : ∀ xs : List α,
+    (xs.map k).mapM f = xs.mapM (fun x => f (k x))
+  | [] => rfl
+  | x :: xs => by rw [List.map_cons, List.mapM_cons, List.mapM_cons, mapM_map' f k xs]
+
+/-- everything the portfolio theorem needs to know about one asset -/
+theorem specK_facts (a : SpecK) (ref : Grid) (gs ge : Int) (cuts : List Int) (prices : Prices) (u : Nat)
+    (A : AssetProblem)
+    (hidx : ref.idx = List.range ref.T) (hdt : ref.dt.length = ref.T) (hdf : (a.unblocked gs ge).df.length = ref.T)
+    (hprices : ∀ kv ∈ prices, kv.2.length = ref.T)
+    (hcov : ∀ t, t < ref.T → ∃ I ∈ (splitPairs cuts).map (intervalSteps ref), t ∈ I)
+    (hdis : ((splitPairs cuts).map (intervalSteps ref)).Pairwise fun I J => ∀ t ∈ I, t ∉ J)
+    (hpts : ∀ t ∈ ref.pts, gs ≤ t ∧ t < ge)
+    (hst : match a.unblocked gs ge with
+      | .builder b => ∀ I ∈ (splitPairs cuts).map (intervalSteps ref),
+          specStable b ((a.unblocked gs ge).grid ref) I prices = true
+      | .storage p _ _ _ => storageStable p ((a.unblocked gs ge).grid ref) ((splitPairs cuts).map (intervalSteps ref)) = true)
+    (hK : match a with | .builder _ => True | .storage p _ _ _ _ => p.lpK = true)
+    (hal : match a with
+      | .builder _ => True
+      | .storage p bs start stop df => pairsAlignedAt p bs start stop df ref gs ge cuts = true)
+    (hA : buildSpecS (a.toS ref gs ge) ref prices u = .ok A) :
+    Banded A ref.T ∧ RowsInside A ((splitPairs cuts).map (intervalSteps ref)) ∧
+    ∀ ab ∈ splitPairs cuts,
+      buildSpecS ((a.onInterval ref ab).toS (ref.interval ab.1 ab.2) ab.1 ab.2)
+        (ref.interval ab.1 ab.2) (intervalPrices ref ab prices) u = .ok (A.restrictTo (intervalSteps ref ab)) := by
+  cases a with
+  | builder b =>
+    obtain ⟨f1, f2, f3, _⟩ := spec_restart_facts (.builder b) ref prices u _ A hidx hdt hdf hprices hcov hdis hst hA
+    exact ⟨f1, f2, fun ab hab => f3 ab (List.mem_map_of_mem hab)⟩
+  | storage p bs start stop df =>
+    have hse : p.startLevel = p.endLevel := by
+      unfold StorageP.lpK StorageP.levelOK at hK
+      simp only [Bool.and_eq_true, decide_eq_true_eq] at hK
+      exact hK.2.1.1
+    exact storageK_facts p bs start stop df ref gs ge cuts prices u A hidx hdt hdf hprices hpts hst hse hal hA
+
+theorem setupIntervalK_eq (specs : List SpecK) (ref : Grid) (prices : Prices) (u : Nat) (skip : List String)
+    (ab : Int × Int) (as : List AssetProblem) (hidx : ref.idx = List.range ref.T)
+    (hB : ∀ A ∈ as, Banded A ref.T)
+    (hall : buildAllS (intervalSpecsK specs ref ab) (ref.interval ab.1 ab.2) (intervalPrices ref ab prices) u =
+        .ok (as.map fun A => A.restrictTo (intervalSteps ref ab))) :
+    setupIntervalK specs ref prices u skip ab =
+      .ok (if (intervalProblem as skip (intervalSteps ref ab)).n = 0 then none
+           else some (intervalProblem as skip (intervalSteps ref ab))) := by
+  unfold setupIntervalK
+  by_cases hT : (ref.interval ab.1 ab.2).T = 0
+  · simp only [hT, if_true]
+    have hI : intervalSteps ref ab = [] :=
+      List.eq_nil_of_length_eq_zero (by rw [← interval_T ref ab hidx]; exact hT)
+    have hn : (intervalProblem as skip (intervalSteps ref ab)).n = 0 := by
+      rw [interval_n _ ref.T hB skip, hI]
+      apply List.length_eq_zero_iff.mpr
+      apply List.eq_nil_iff_forall_not_mem.mpr
+      intro v hv
+      obtain ⟨_, m, _, _, hs⟩ := (mem_pkeep _ _ _).mp hv
+      simp at hs
+    rw [if_pos hn]; rfl
+  · simp only [hT, if_false]
+    have hJidx : (ref.interval ab.1 ab.2).idx = List.range (intervalSteps ref ab).length := by
+      show List.range _ = _
+      rw [← interval_T ref ab hidx]; rfl
+    unfold setupPortfolioS
+    simp only [bind, Except.bind, hall, pure, Except.pure, hJidx]
+    show (if (intervalProblem as skip (intervalSteps ref ab)).n = 0 then _
+      else Except.ok (some (intervalProblem as skip _))) = _
+    split <;> rfl
+
+theorem setupSplitK_eq (specs : List SpecK) (ref : Grid) (cuts : List Int) (prices : Prices) (u : Nat)
+    (skip : List String) (as : List AssetProblem) (hidx : ref.idx = List.range ref.T)
+    (hprices : ∀ kv ∈ prices, kv.2.length = ref.T) (hB : ∀ A ∈ as, Banded A ref.T)
+    (hall : ∀ ab ∈ splitPairs cuts,
+      buildAllS (intervalSpecsK specs ref ab) (ref.interval ab.1 ab.2) (intervalPrices ref ab prices) u =
+        .ok (as.map fun A => A.restrictTo (intervalSteps ref ab)))
+    (hne : (((splitPairs cuts).map (intervalSteps ref)).map (intervalProblem as skip)).filter
+        (fun P => P.n != 0) ≠ []) :
+    setupSplitK specs ref cuts prices u skip =
+      .ok ((((splitPairs cuts).map (intervalSteps ref)).map (intervalProblem as skip)).filter fun P => P.n != 0) := by
+  unfold setupSplitK
+  have hp : (prices.any fun kv => kv.2.length != ref.T) = false := by
+    rw [Bool.eq_false_iff]
+    intro h
+    obtain ⟨kv, hkv, hb⟩ := List.any_eq_true.mp h
+    simp [hprices kv hkv] at hb
+  have hm := mapM_ok_of_forall (setupIntervalK specs ref prices u skip)
+    (fun ab => if (intervalProblem as skip (intervalSteps ref ab)).n = 0 then none
+      else some (intervalProblem as skip (intervalSteps ref ab))) (splitPairs cuts)
+    (fun ab hab => setupIntervalK_eq specs ref prices u skip ab as hidx hB (hall ab hab))
+  have hfm : ((splitPairs cuts).map fun ab => if (intervalProblem as skip (intervalSteps ref ab)).n = 0 then none
+      else some (intervalProblem as skip (intervalSteps ref ab))).filterMap id =
+      (((splitPairs cuts).map (intervalSteps ref)).map (intervalProblem as skip)).filter fun P => P.n != 0 := by
+    rw [← filterMap_skip (intervalProblem as skip), List.map_map]
+    rfl
+  simp only [bind, Except.bind, hp, Bool.false_eq_true, if_false, hm, hfm, pure, Except.pure]
+  have : ((((splitPairs cuts).map (intervalSteps ref)).map (intervalProblem as skip)).filter
+      fun P => P.n != 0).isEmpty = false := by
+    cases hh : (((splitPairs cuts).map (intervalSteps ref)).map (intervalProblem as skip)).filter
+        fun P => P.n != 0 with
+    | nil => exact absurd hh hne
+    | cons _ _ => rfl
+  rw [this]
+  rfl
+
+/-- **the split set-up of a portfolio with storages in time blocks is the split of the UNSPLIT problem**, under
+    pair-level alignment -/
+theorem blocks_split_witness (specs : List SpecK) (ref : Grid) (gs ge : Int) (cuts : List Int) (prices : Prices)
+    (u : Nat) (skip : List String) (U : Problem)
+    (hH : splitHypsS (specs.map fun a => a.unblocked gs ge) ref cuts prices = true)
+    (hK : lpKAll specs = true) (hpts : ∀ t ∈ ref.pts, gs ≤ t ∧ t < ge)
+    (hal : pairsAligned specs ref gs ge cuts = true)
+    (hU : setupPortfolioK specs ref gs ge prices u skip = .ok U) (hpos : 0 < U.n) :
+    ∃ ps, setupSplitK specs ref cuts prices u skip = .ok ps ∧
+      splitWitness U ps (splitPerm U ((splitPairs cuts).map (intervalSteps ref))) = true := by
+  obtain ⟨hidx, hdt, hdf, hprices, hpart, hst⟩ := splitHypsS_spec _ ref cuts prices hH
+  obtain ⟨as, has, rfl⟩ := setupPortfolioS_ok hU
+  obtain ⟨hcov, hdis⟩ := isPartition_spec _ _ hpart
+  have hm : specs.mapM (fun a => buildSpecS (a.toS ref gs ge) ref prices u) = .ok as := by
+    have := mapM_map' (fun s => buildSpecS s ref prices u) (fun a : SpecK => a.toS ref gs ge) specs
+    rw [← this]; exact has
+  unfold lpKAll at hK
+  unfold pairsAligned at hal
+  rw [List.all_eq_true] at hK hal
+  have hfacts : ∀ a ∈ specs, ∀ A, buildSpecS (a.toS ref gs ge) ref prices u = .ok A →
+      Banded A ref.T ∧ RowsInside A ((splitPairs cuts).map (intervalSteps ref)) ∧
+      ∀ ab ∈ splitPairs cuts,
+        buildSpecS ((a.onInterval ref ab).toS (ref.interval ab.1 ab.2) ab.1 ab.2)
+          (ref.interval ab.1 ab.2) (intervalPrices ref ab prices) u = .ok (A.restrictTo (intervalSteps ref ab)) := by
+    intro a ha A hA
+    have hmem : a.unblocked gs ge ∈ specs.map fun a => a.unblocked gs ge := List.mem_map_of_mem ha
+    refine specK_facts a ref gs ge cuts prices u A hidx hdt (hdf _ hmem) hprices hcov hdis hpts (hst _ hmem) ?_ ?_ hA
+    · have := hK a ha
+      cases a with
+      | builder b => trivial
+      | storage p bs start stop df => exact this
+    · have := hal a ha
+      cases a with
+      | builder b => trivial
+      | storage p bs start stop df => exact this
+  have hB : ∀ A ∈ as, Banded A ref.T := by
+    intro A hA
+    obtain ⟨a, ha, hb⟩ := mapM_mem _ specs _ hm A hA
+    exact (hfacts a ha A hb).1
+  have hRI : ∀ A ∈ as, RowsInside A ((splitPairs cuts).map (intervalSteps ref)) := by
+    intro A hA
+    obtain ⟨a, ha, hb⟩ := mapM_mem _ specs _ hm A hA
+    exact (hfacts a ha A hb).2.1
+  have hall : ∀ ab ∈ splitPairs cuts,
+      buildAllS (intervalSpecsK specs ref ab) (ref.interval ab.1 ab.2) (intervalPrices ref ab prices) u =
+        .ok (as.map fun A => A.restrictTo (intervalSteps ref ab)) := by
+    intro ab hab
+    unfold buildAllS intervalSpecsK
+    exact mapM_transfer _ _ _ _ specs _ hm (fun a ha A hA => (hfacts a ha A hA).2.2 ab hab)
+  generalize hIs : (splitPairs cuts).map (intervalSteps ref) = Is at *
+  rw [hidx] at hpos ⊢
+  have hw := witness_of_banded as ref.T Is skip hB hpart hRI
+  have hw' := splitWitness_filter _ _ _ (by
+    intro P hP
+    obtain ⟨I, _, rfl⟩ := List.mem_map.mp hP
+    exact intervalProblem_rows_ne as ref.T hB skip I) hw
+  refine ⟨_, ?_, hw'⟩
+  have := setupSplitK_eq specs ref cuts prices u skip as hidx hprices hB hall
+  rw [hIs] at this
+  apply this
+  intro hnil
+  have hperm := splitPerm_isPerm as ref.T hB _ hpart
+  have hlen : (Is.flatMap fun I => (assembleFrom 0 as).keep I).length = (assembleFrom 0 as).n := by
+    unfold isPermOf at hperm
+    simp only [Bool.and_eq_true, decide_eq_true_eq] at hperm
+    exact hperm.1.1.1
+  have hall0 : ∀ I ∈ Is, (assembleFrom 0 as).keep I = [] := by
+    intro I hI
+    have hmem : intervalProblem as skip I ∈ Is.map (intervalProblem as skip) := List.mem_map_of_mem hI
+    have : ¬ ((intervalProblem as skip I).n != 0) = true := by
+      intro hn
+      have : intervalProblem as skip I ∈ (Is.map (intervalProblem as skip)).filter fun P => P.n != 0 :=
+        List.mem_filter.mpr ⟨hmem, hn⟩
+      rw [hnil] at this
+      simp at this
+    have hn0 : (intervalProblem as skip I).n = 0 := by simpa using this
+    rw [interval_n as ref.T hB skip I] at hn0
+    exact List.eq_nil_of_length_eq_zero hn0
+  have : (Is.flatMap fun I => (assembleFrom 0 as).keep I) = [] := by
+    apply List.eq_nil_iff_forall_not_mem.mpr
+    intro v hv
+    obtain ⟨I, hI, hvI⟩ := List.mem_flatMap.mp hv
+    rw [hall0 I hI] at hvI
+    simp at hvI
+  rw [this] at hlen
+  have hn : (assemble as (List.range ref.T) skip).n = (assembleFrom 0 as).n := assemble_n _ _ _
+  rw [hn, ← hlen] at hpos
+  simp at hpos
+/-- **asset level**: the storage with time blocks built on the interval grid is the restriction of the unsplit storage
+    with time blocks, when the blocks found in the interval are the unsplit blocks of the interval's piece -/
+theorem blk_interval_build (p0 : StorageP) (aa aaI : Option (List Nat)) (g : Grid) (T : Nat) (prices : Prices)
+    (A : AssetProblem) (bl : List (Nat × Nat)) (I : List Nat) (sa m : Nat)
+    (hg : g.Ok) (hlp : p0.lp = true) (hcs : p0.costStore = 0) (hse : p0.startLevel = p0.endLevel)
+    (hP : g.posIn I = List.range' sa m) (hT : 0 < g.T)
+    (hbl : blocksOf { p0 with blocks := aa } g.T = .ok bl)
+    (hal : ∀ ae ∈ bl, inside sa m ae = true ∨ ae.2 ≤ sa ∨ sa + m ≤ ae.1)
+    (haaI : m ≠ 0 → blocksOf { p0 with blocks := aaI } m = .ok ((bl.filter (inside sa m)).map (unshift sa)))
+    (hA : buildStorage { p0 with blocks := aa } g T prices = .ok A) :
+    buildStorage { p0 with blocks := aaI } (g.pick I) I.length (pickPrices I prices) = .ok (A.restrictTo I) := by
+  have hpos : pos g.idx I = List.range' sa m := hP
+  obtain ⟨pr, bl', rfl, _, hpr⟩ := buildStorage_blkForm p0 aa g T prices A hg hlp hA
+  have hTne : g.T ≠ 0 := by omega
+  have hbb : bl' = bl := by
+    have := (hpr hTne).1
+    rw [hbl] at this
+    injection this with this
+    exact this.symm
+  subst hbb
+  have hbl1 := blocksOf_ok _ g.T bl' hbl hT
+  have hTI : (g.pick I).T = m := by rw [pick_T g I hg, hpos]; simp
+  have hgI := pick_ok g I hg
+  obtain ⟨prI, hb, _, hprI⟩ := storageOn_form p0 g T prices pr I hg hlp (fun h => (hpr h).2)
+  obtain ⟨pr', hEq, hpr'⟩ := buildStorage_form p0 (g.pick I) _ _ _ hgI hlp hb
+  rw [blk_restrict p0 g pr prI I hg hlp hcs hse sa m hpos bl'
+    (fun ae hae => ⟨(hbl1 ae hae).1, (hbl1 ae hae).2, hal ae hae⟩) hprI]
+  have hsw : ∀ blI, blkForm p0 (g.pick I) prI blI = blkForm p0 (g.pick I) pr' blI := by
+    intro blI; unfold blkForm; rw [hEq]
+  rw [hsw]
+  refine buildStorage_of_blkForm p0 _ (g.pick I) _ _ pr' _ hgI hlp (fun h0 => ?_) (fun hne => ⟨?_, hpr' hne⟩)
+  · rw [hTI] at h0
+    rw [h0, List.map_eq_nil_iff, List.filter_eq_nil_iff]
+    intro ae hae hin
+    have := (hbl1 ae hae).1
+    unfold inside at hin
+    simp only [Bool.and_eq_true, decide_eq_true_eq] at hin
+    omega
+  · rw [hTI] at hne ⊢
+    exact haaI hne
 end EAO.BlockSplit
